@@ -1,0 +1,89 @@
+//go:build verif
+
+/*
+   Copyright The containerd Authors.
+
+   Licensed under the Apache License, Version 2.0 (the "License");
+   you may not use this file except in compliance with the License.
+   You may obtain a copy of the License at
+
+       http://www.apache.org/licenses/LICENSE-2.0
+
+   Unless required by applicable law or agreed to in writing, software
+   distributed under the License is distributed on an "AS IS" BASIS,
+   WITHOUT WARRANTIES OR CONDITIONS OF ANY KIND, either express or implied.
+   See the License for the specific language governing permissions and
+   limitations under the License.
+*/
+
+package fusemanager
+
+import (
+	"encoding/json"
+	"sync"
+
+	bolt "go.etcd.io/bbolt"
+
+	"github.com/containerd/stargz-snapshotter/snapshot"
+)
+
+var (
+	verifWrapMu sync.Mutex
+	verifWrap   func(fs snapshot.FileSystem, root string, config *Config) snapshot.FileSystem
+)
+
+// VerifSetWrapFS lets a verification harness wrap or replace the filesystem
+// that Init has just constructed (nil removes the wrapper).
+func VerifSetWrapFS(f func(fs snapshot.FileSystem, root string, config *Config) snapshot.FileSystem) {
+	verifWrapMu.Lock()
+	defer verifWrapMu.Unlock()
+	verifWrap = f
+}
+
+func verifWrapFS(fs snapshot.FileSystem, root string, config *Config) snapshot.FileSystem {
+	verifWrapMu.Lock()
+	f := verifWrap
+	verifWrapMu.Unlock()
+	if f == nil {
+		return fs
+	}
+	return f(fs, root, config)
+}
+
+// VerifStoreRecords returns mountpoint -> labels as recorded in the bolt store
+// this server holds open.
+func (fm *Server) VerifStoreRecords() (map[string]map[string]string, error) {
+	res := make(map[string]map[string]string)
+	err := fm.ms.View(func(tx *bolt.Tx) error {
+		bucket := tx.Bucket(fuseInfoBucket)
+		if bucket == nil {
+			return nil
+		}
+		return bucket.ForEach(func(k, v []byte) error {
+			mi := &fuseInfo{}
+			if err := json.Unmarshal(v, mi); err != nil {
+				return err
+			}
+			res[string(k)] = mi.Labels
+			return nil
+		})
+	})
+	return res, err
+}
+
+// VerifServedMountpoints returns the mountpoints present in the server's
+// mountpoint -> filesystem map.
+func (fm *Server) VerifServedMountpoints() map[string]snapshot.FileSystem {
+	res := make(map[string]snapshot.FileSystem)
+	fm.fsMap.Range(func(k, v any) bool {
+		res[k.(string)] = v.(snapshot.FileSystem)
+		return true
+	})
+	return res
+}
+
+// VerifCloseStoreKeepFile closes the bolt store without removing its file, as a
+// manager process that dies would leave it.
+func (fm *Server) VerifCloseStoreKeepFile() error {
+	return fm.ms.Close()
+}
